@@ -72,6 +72,8 @@ pub struct Out {
     pub nontrivial: HashSet<u64>,
     pub samples: Vec<Value>,
     pub dir: String,
+    /// rule lines whose parse has already been compared with the model's (see `c11::emit_plines`)
+    pub seen_lines: HashSet<String>,
 }
 
 impl Out {
@@ -89,6 +91,7 @@ impl Out {
             nontrivial: HashSet::new(),
             samples: vec![],
             dir: dir.to_string(),
+            seen_lines: HashSet::new(),
         }
     }
     /// One model-compared case.
